@@ -60,12 +60,14 @@ def run(check, prog):
     energy(check, prog, canon)
     mie_sums(check, prog, canon)
     multisphere(check, prog, canon)
+    solid_angle_quadrature(check, prog)
     dimensions(check, prog)
     # the four numbers are sums over a_n, b_n: the coefficient formulas themselves
     # (single- and multi-layer) are checked by the rules shared with C02
     from . import c02
     c02.bh488(check, prog, canon)
     c02.yang(check, prog, canon)
+    c02.qratio(check, prog)
     c02.seam(check, prog, canon)
 
 
@@ -286,3 +288,84 @@ def dimensions(check, prog):
                       'three areas (length^2) and a pure number', prog.loc(IFQ, fd),
                       fail_detail='L-weights %s; %s' % (c04.fmt(rw), '; '.join(
                           conflicts)[:200]))
+
+
+def solid_angle_quadrature(check, prog):
+    """E3-solid-angle: the quadratures behind C_sca (by quadrature) and <cos theta>
+    cover the whole sphere with weight 1 -- phi over [0, 2 pi], theta over [0, pi],
+    the integrand carrying sin(theta) (times cos(theta) for the asymmetry).  A
+    symmetry reduction of the phi range is valid for x / y polarisation only."""
+    from hpstatic.interp import Frame
+    T = TH + 'multisphere.'
+    q = T + '_integrate4pi'
+    fd = prog.func(q)
+    loc = prog.loc(q, fd)
+    it = Interp(prog, max_depth=1)
+    v = it.analyze(q).ret
+    f = sym(fd.args.args[0].arg)
+    c0 = Canon()
+    ok = v[0] == 'idx' and v[2] == num(0) and v[1][0] == 'call' and \
+        v[1][1] == 'scipy.integrate.dblquad' and len(v[1][2]) == 5 and v[1][2][0] == f
+    detail = 'returns %s' % show(v)[:160]
+    if ok:
+        a, b, lo, hi = v[1][2][1:]
+        lims = []
+        for cl in (lo, hi):
+            if cl[0] == 'closure':
+                node_c, cenv, cframe = it.closures[cl[1]]
+                fr = Frame(cframe.module, cframe.owner, cframe.selfcls, cframe.selfname, 0, q)
+                lims.append(it.inline_closure(node_c, cenv, cframe, [sym('x_')], {}, fr, ()))
+            else:
+                lims.append(cl)
+        two_pi = expr_term(prog, '2 * np.pi', {})
+        pi = expr_term(prog, 'np.pi', {})
+        ok = c0.equal(a, num(0)) and c0.equal(b, two_pi) and \
+            c0.equal(lims[0], num(0)) and c0.equal(lims[1], pi)
+        detail = 'outer variable over [%s, %s], inner over [%s, %s]' % (
+            c0.show(a), c0.show(b), c0.show(lims[0]), c0.show(lims[1]))
+    check.require(ok, 'E3-solid-angle', '_integrate4pi',
+                  'integral over phi in [0, 2 pi] and theta in [0, pi], returned unscaled',
+                  loc, fail_detail=detail)
+    # the integrands: (theta, phi) order as dblquad calls func(inner, outer), and
+    # the sin(theta) [cos(theta)] weights
+    MS = T + 'Multisphere'
+    for meth, weight in (('_calc_cscat_quad', 'np.sin(theta)'),
+                         ('_calc_asym', 'np.sin(theta) * np.cos(theta)')):
+        qm = MS + '.' + meth
+        fdm = prog.func(qm)
+        itm = Interp(prog, max_depth=3, opaque=[T + '_integrate4pi', T + '_asm_far',
+                                                T + 'normalize_polarization',
+                                                MS + '._scsmfo_setup'])
+        itm.analyze(qm)
+        calls = [c for c in itm.calls if c['name'] == T + '_integrate4pi']
+        ok = len(calls) == 1 and calls[0]['args'] and calls[0]['args'][0][0] == 'closure'
+        detail = 'no single _integrate4pi(<integrand>) call'
+        if ok:
+            node_c, cenv, cframe = itm.closures[calls[0]['args'][0][1]]
+            fr = Frame(cframe.module, cframe.owner, cframe.selfcls, cframe.selfname, 0, qm)
+            th, ph = sym('theta'), sym('phi')
+            val = itm.inline_closure(node_c, cenv, cframe, [th, ph], {}, fr, ())
+            asm = [c for c in calls_in(val, T + '_asm_far')]
+            inc = [x for x in subterms(val) if x[0] == 'call' and isinstance(x[1], str)
+                   and x[1].endswith('incfield')]
+            ok = bool(asm) and all(c[2][0] == th and c[2][1] == ph for c in asm) and \
+                bool(inc) and all(dict(c[3]).get('phi') == ph for c in inc)
+            detail = 'the amplitude is evaluated at %s' % [show(c)[:60] for c in asm + inc]
+            if ok:
+                w = expr_term(prog, weight, {'theta': th})
+                # integrand = |A|^2 * weight: dividing by the weight leaves no theta
+                # outside the amplitude
+                rest = intern(('bin', '/', val, w))
+                r = c0.rat(rest)
+                atoms = set()
+                for mono in list(r.num) + list(r.den):
+                    for a_, e_ in mono:
+                        atoms.add(a_)
+                free = [a_ for a_ in atoms if any(
+                    x == th for x in subterms(a_)) and not calls_in(a_, T + '_asm_far')]
+                ok = not free
+                detail = 'integrand / (%s) still depends on theta through %s' % (
+                    weight, [show(a_)[:60] for a_ in free])
+        check.require(ok, 'E3-solid-angle', 'Multisphere.%s integrand' % meth,
+                      '|A(theta, phi)|^2 * %s with the first argument the polar angle'
+                      % weight, prog.loc(qm, fdm), fail_detail=detail)
